@@ -3,6 +3,7 @@ package vc
 import (
 	"fmt"
 	"go/types"
+	"reflect"
 	"sort"
 	"strings"
 
@@ -367,7 +368,6 @@ func staticSaveToBytesSteps(g *Gen, o CheckOpts) []StaticResult {
 		Detail: fmt.Sprintf("Save:    %v\nToBytes: %v", a, b)}}
 }
 
-
 var constNonNilCache = map[string]bool{}
 var globalUsesCache map[string]*GlobalUse
 
@@ -433,9 +433,9 @@ func (g *Gen) constNonNilGlobal(name string) bool {
 
 // constMapEntry is one key/value pair of a package-level map literal.
 type constMapEntry struct {
-	Key ssa.Value
-	Val ssa.Value            // constant value, or nil when Fields is set
-	Fields map[int]ssa.Value // struct-literal value: field index -> constant
+	Key     ssa.Value
+	Val     ssa.Value         // constant value, or nil when Fields is set
+	Fields  map[int]ssa.Value // struct-literal value: field index -> constant
 	StructT types.Type
 }
 
@@ -554,7 +554,9 @@ func (c *FnCtx) assumeConstMaps(st *State) {
 			dom, val, ks, _ := g.TE.MapHeaps(mt)
 			gv := st.Heap(gh)
 			from := len(c.lines)
-			defer func() { c.constMapSpans = append(c.constMapSpans, constMapSpan{tok: strings.SplitN(gv, "@", 2)[0], from: from, to: len(c.lines)}) }()
+			defer func() {
+				c.constMapSpans = append(c.constMapSpans, constMapSpan{tok: strings.SplitN(gv, "@", 2)[0], from: from, to: len(c.lines)})
+			}()
 			var keys []string
 			for _, e := range entries {
 				k := fr.constVal(e.Key.(*ssa.Const)).T
@@ -622,4 +624,63 @@ func (c *FnCtx) pruneConstMaps() {
 			}
 		}
 	}
+}
+
+func init() {
+	staticChecks["xml-order"] = staticXMLOrder
+}
+
+// staticXMLOrder decides the `//@ xml-order T: a, b, c` directives: encoding/xml writes the fields of a struct without a
+// custom marshaler in declaration order, so "w:sdtPr comes before w:sdtContent" is a fact about the struct declaration.
+// The check reads the struct type from go/types: the fields that are written as child elements (an xml tag whose name is
+// not "-", without the attr/chardata/innerxml/comment/any flags; XMLName excluded), in declaration order, must be exactly
+// the listed names. A reordered, renamed, removed or added element field fails the check. That encoding/xml really
+// follows declaration order is part of the trusted base (documented behaviour of the package).
+func staticXMLOrder(g *Gen, o CheckOpts) []StaticResult {
+	var out []StaticResult
+	for _, sp := range g.CS.XMLOrders {
+		name := "static:xml-order:" + sp.Pkg + "." + sp.Type
+		res := StaticResult{Name: name, Desc: fmt.Sprintf("child elements of %s.%s in declaration order are %s", sp.Pkg, sp.Type, strings.Join(sp.Names, ", "))}
+		var got []string
+		found := false
+		if ssp := g.SSAPkgs[sp.Pkg]; ssp != nil {
+			if obj := ssp.Pkg.Scope().Lookup(sp.Type); obj != nil {
+				if st, ok := obj.Type().Underlying().(*types.Struct); ok {
+					found = true
+					for i := 0; i < st.NumFields(); i++ {
+						if st.Field(i).Name() == "XMLName" {
+							continue
+						}
+						tag := reflect.StructTag(st.Tag(i)).Get("xml")
+						parts := strings.Split(tag, ",")
+						elem := parts[0] != "-"
+						for _, fl := range parts[1:] {
+							switch fl {
+							case "attr", "chardata", "cdata", "innerxml", "comment", "any":
+								elem = false
+							}
+						}
+						if !elem {
+							continue
+						}
+						n := parts[0]
+						if n == "" {
+							n = st.Field(i).Name()
+						}
+						got = append(got, n)
+					}
+				}
+			}
+		}
+		res.OK = found && strings.Join(got, ",") == strings.Join(sp.Names, ",")
+		res.Detail = fmt.Sprintf("declared: %v\nrequired: %v", got, sp.Names)
+		if !found {
+			res.Detail = "no such struct type"
+		}
+		out = append(out, res)
+	}
+	if len(out) == 0 {
+		out = append(out, StaticResult{Name: "static:xml-order", Desc: "xml-order directives", OK: false, Detail: "no xml-order directive found"})
+	}
+	return out
 }
